@@ -1,7 +1,8 @@
 #!/usr/bin/env python3
 """translate_imp.py - fail-closed translator for the small IMPERATIVE methods that mutate the dictionaries of CFDivisor / CFGraph
 (lending_move, borrowing_move, chip_transfer, set_fire, is_effective, get_degree; add_edge, get_valence, is_loopless) to Gallina.
-Writes coq/theories/TranslatedImp.v from /repo's CURRENT source on every run; Link/ImpLink.v proves that each translated method, run on a
+Writes coq/theories/TranslatedImpCFDivisor.v and TranslatedImpCFGraph.v (one file per class, so that a method that leaves the subset only
+affects the property that speaks about its class) from /repo's CURRENT source on every run; Link/ImpLink.v proves that each translated method, run on a
 dictionary state that represents a model state, raises exactly when the model refuses and otherwise ends in a state representing the model's
 result (lend / borrow / transfer / fire_set / add_edge of Model/Core.v, Model/Machines.v) - the functions the C05 / C13 theorems are about.
 
@@ -18,7 +19,7 @@ Subset (anything else raises Unsupported and the run fails closed): see the meth
 `self.f op= e`, calls of already translated methods on self, and the early-exit loop `for ..: if c: return CONST`."""
 import ast, sys, os
 REPO = os.environ.get("CF_REPO", "/repo")
-OUT = os.path.join(os.path.dirname(os.path.abspath(__file__)), "..", "coq", "theories", "TranslatedImp.v")
+OUT = os.path.join(os.path.dirname(os.path.abspath(__file__)), "..", "coq", "theories", "TranslatedImp.v")     # directory of the generated files TranslatedImp<Class>.v
 # class -> { attribute text : (gallina name, type) }
 FIELDS = {
     "CFDivisor": {"self.degrees": ("self_degrees", "dictZ"), "self.graph.graph": ("self_graph_graph", "dictD"), "self.total_degree": ("self_total_degree", "Z")},
@@ -316,19 +317,26 @@ def check_alias(tree, cls, alias, name):
     return any(isinstance(n, ast.Assign) and ast.unparse(n) == "%s = %s" % (alias, name) for n in c.body)
 
 def main():
-    out = ["(* GENERATED on every run by tools/translate_imp.py from the current source in %s. Do not edit. *)" % REPO,
-           "From Coq Require Import ZArith List Bool Arith.", "Import ListNotations.", "From CF Require Import PyDict.", "Open Scope Z_scope.", ""]
-    for path, cls, name in TARGETS:
-        tree = ast.parse(open(os.path.join(REPO, path)).read())
-        fn = Fn(find(tree, cls, name), cls); text = fn.translate(); DONE[(cls, name)] = fn
-        out.append("(* %s :: %s.%s   reads %s, writes %s%s *)" % (path, cls, name, fn.reads, fn.writes, ", may raise" if fn.can_raise else "")); out.append(text); out.append("")
-    tree = ast.parse(open(os.path.join(REPO, "chipfiring/CFDivisor.py")).read())
-    if not check_alias(tree, "CFDivisor", "firing_move", "lending_move"): raise Unsupported("CFDivisor.firing_move is no longer an alias of lending_move")
-    out.append("(* CFDivisor.firing_move is the class attribute `firing_move = lending_move` *)"); out.append("Definition CFDivisor_firing_move := CFDivisor_lending_move."); out.append("")
-    text = "\n".join(out); old = open(OUT).read() if os.path.exists(OUT) else None
-    if old != text: open(OUT, "w").write(text)
-    print("translated %d methods -> %s%s" % (len(TARGETS), os.path.normpath(OUT), "" if old != text else " (unchanged)"))
-if __name__ == "__main__":
-    try: main()
-    except Unsupported as e:
-        print("TRANSLATOR-UNSUPPORTED: %s" % e); sys.exit(2)
+    failed = []
+    for cls in ("CFDivisor", "CFGraph"):
+        out_path = os.path.join(os.path.dirname(OUT), "TranslatedImp%s.v" % cls)
+        try:
+            out = ["(* GENERATED on every run by tools/translate_imp.py from the current source in %s. Do not edit. *)" % REPO,
+                   "From Coq Require Import ZArith List Bool Arith.", "Import ListNotations.", "From CF Require Import PyDict.", "Open Scope Z_scope.", ""]
+            k = 0
+            for path, c, name in TARGETS:
+                if c != cls: continue
+                tree = ast.parse(open(os.path.join(REPO, path)).read())
+                fn = Fn(find(tree, cls, name), cls); text = fn.translate(); DONE[(cls, name)] = fn; k += 1
+                out.append("(* %s :: %s.%s   reads %s, writes %s%s *)" % (path, cls, name, fn.reads, fn.writes, ", may raise" if fn.can_raise else "")); out.append(text); out.append("")
+            if cls == "CFDivisor":
+                tree = ast.parse(open(os.path.join(REPO, "chipfiring/CFDivisor.py")).read())
+                if not check_alias(tree, "CFDivisor", "firing_move", "lending_move"): raise Unsupported("CFDivisor.firing_move is no longer an alias of lending_move")
+                out.append("(* CFDivisor.firing_move is the class attribute `firing_move = lending_move` *)"); out.append("Definition CFDivisor_firing_move := CFDivisor_lending_move."); out.append("")
+            text = "\n".join(out); old = open(out_path).read() if os.path.exists(out_path) else None
+            if old != text: open(out_path, "w").write(text)
+            print("translated %d methods of %s -> %s%s" % (k, cls, os.path.normpath(out_path), "" if old != text else " (unchanged)"))
+        except (Unsupported, SyntaxError, OSError) as e:
+            print("TRANSLATOR-UNSUPPORTED[%s]: %s" % (cls, e)); failed.append(cls)
+    sys.exit(2 if failed else 0)
+if __name__ == "__main__": main()
